@@ -270,15 +270,33 @@ G(name="cli_send_probe", entry="h_send_probe", defs=["STUB_SENDERS=1", "STUB_TUN
 LEVELS = {}
 TRUSTED_BASE = ["CBMC 6.11.0 (goto-cc front end, goto-instrument --dfcc contract instrumentation, symex)",
                 "kissat (SAT back end)", "gcc -E (expansion of spec macros inside loop contracts)"]
-PROP_TRUST = {"C12": ["stub contracts of readname/readtxtbin inside dns_decode (each proved in its own group)", "CBMC builtin memset; bounds-asserting havoc model of memcpy/strncpy/strlen (models/libc.h)"],
+SRV_TRUST = ["gcc -E text of iodined.c with must-fire shrink rules (evidence.groups[].extraction_drops)", "hand-written contract stubs of helpers inside the dispatcher/net groups (each cites the group that proves the helper; DESIGN 11.1)", "typed memcpy model for copies into the session slot, bounds-asserting havoc model elsewhere", "recorders for sendto/write_tun/syslog; time() = one arbitrary instant per event"]
+CLI_TRUST = ["gcc -E text of client.c with must-fire shrink rules (evidence.groups[].extraction_drops)", "contract stubs of dns_decode/unpack_data/decoders/build_hostname/handshake_waitdns/read_dns_withq inside client groups (each proved in its own group)", "models of sscanf (terminator + field widths), zlib compress2/uncompress (lengths only), recvfrom/recv/select"]
+PROP_TRUST = {"C01": SRV_TRUST + CLI_TRUST + ["zlib is external: only successfully inflated buffers reach tun, adler32 itself is not analysed"],
+              "C03": SRV_TRUST + ["login_calculate replaced by a recorder in the dispatcher groups (its value is the C19 miter)"],
+              "C04": SRV_TRUST + ["find_user_by_ip contract (16-slot proof) used as a stub on the two-slot routing groups"],
+              "C05": SRV_TRUST, "C06": CLI_TRUST, "C14": SRV_TRUST, "C15": SRV_TRUST, "C16": SRV_TRUST,
+              "C08": ["encoder replaced by its C07 contract inside build_hostname", "build_hostname replaced by its contract inside the client's name builders"] + CLI_TRUST,
+              "C09": SRV_TRUST + CLI_TRUST + ["encoders replaced by their C07 contract (length, maximal prefix, alphabet without NUL and dot) inside write_dns*"],
+              "C10": SRV_TRUST + ["dns_encode* replaced by recorders inside handle_ns/a_request, write_dns, forward_query"],
+              "C13": ["recorders for snprintf/system/inet_ntoa; inet_addr unconstrained", "sscanf model at the handshake_login boundary"],
+              "C12": ["stub contracts of readname/readtxtbin inside dns_decode (each proved in its own group)", "CBMC builtin memset; bounds-asserting havoc model of memcpy/strncpy/strlen (models/libc.h)"],
               "C17": ["CBMC ctype models (ASCII)", "reference acceptor/matcher spec/domain.h"],
               "C18": ["gcc -E + sed shrink rules for the user.c TU", "assumed contract snprintf+inet_addr", "calloc model"],
               "C19": ["spec/md5.h (RFC 1321, self-checked on the RFC vectors)"],
-              "C20": ["CBMC builtin memcpy/memset for the fixed-size ring entries"]}
+              "C20": ["CBMC builtin memcpy/memset for the fixed-size ring entries"] + SRV_TRUST}
 ASSUMPTIONS = ["A1 CBMC/kissat are sound", "A11 only the Linux #ifdef branches are compiled (flags from src/osflags)"]
-PROP_ASSUME = {"C12": ["datagram length 0..65536 (recvfrom buffer size)", "q is never NULL (every call site passes a query object)", "answer buffer is NULL or 2..65536 bytes"],
+SRV_ASSUME = ["A5 server state is ONE session slot (two for the routing groups); statements about other slots are not made", "packet payload capacity 64 bytes in the verified text (order relations between buffer capacities kept by the rules)", "debug == 0: diagnostic output is not executed", "function-static counters start at their initial values (only user.c groups run with --nondet-static)"]
+CLI_ASSUME = ["every 64 KB buffer of client.c has 64 bytes in the verified text", "handshake replies: at most 4096 bytes, arbitrary content", "function-static counters start at their initial values"]
+PROP_ASSUME = {"C01": SRV_ASSUME + CLI_ASSUME + ["A-C01-1 adler32 rejects mis-assembled streams (external, probabilistic)", "A-C01-2 composition over lossy/duplicating/reordering histories is not mechanised"],
+               "C03": SRV_ASSUME, "C04": SRV_ASSUME, "C05": SRV_ASSUME, "C06": CLI_ASSUME, "C14": SRV_ASSUME, "C15": SRV_ASSUME, "C16": SRV_ASSUME,
+               "C08": CLI_ASSUME + ["hostname_maxlen >= domain length + 24 (the property's own domain)"],
+               "C09": SRV_ASSUME + CLI_ASSUME + ["payloads of 0..4096 bytes (every call site of write_dns)", "the whole chain and the MX/SRV list path are not composed (DESIGN 6/C09, 11.7)"],
+               "C10": SRV_ASSUME + ["putname and the MX/SRV record loop are not part of the check (work in progress)"],
+               "C13": ["only the Linux branch of tun.c", "the server's own tun_setip call (operator input) is outside the statement"],
+               "C12": ["datagram length 0..65536 (recvfrom buffer size)", "q is never NULL (every call site passes a query object)", "answer buffer is NULL or 2..65536 bytes"],
                "C17": ["A4 glibc ctype on negative char agrees with the ASCII models", "query names <= 255 characters (QUERY_NAME_SIZE)"],
                "C18": ["A6 user.c TU with untouched array members shrunk", "A9 netmask range 8..30 enforced by main()"],
                "C19": ["A9 password zero-padded to 32 bytes by main()"],
-               "C20": ["distinct ids among the 16 most recent forwarded queries (the property's own precondition)"]}
+               "C20": ["distinct ids among the 16 most recent forwarded queries (the property's own precondition)", "read_dns stores sizeof(struct sockaddr_storage) as the asker's address length"] + SRV_ASSUME}
 EXPLAIN = {}
